@@ -195,7 +195,7 @@ Scenario make_c28() {
     s.real_components = {"src/main.cpp serve path (real main())", "ControlServer (parse_request, handle_store, handle_fetch, rate limiter)", "security::StoreProof", "Node::store_chunk"};
     s.stub_components = {"OS: threads -> fibers, sockets -> simulated TCP (accept/getpeername report the simulated peer address), clock, entropy", "control clients are scripted raw requests; PoW solved/checked by an independent reference"};
     s.assumptions = {"acceptance times are known as [send, reply] intervals; the rate rule is flagged only when limit+1 acceptances lie inside one open 30 s window for certain"};
-    s.rule = "plan = network knobs + either 3..12 mixed requests (size x TTL x PoW kind x forged TOKEN x source x withheld body x filename) or a flood of 8..30 small valid STOREs/FETCHes from one address with waits of 0.1..31 s; non-trivial = a length above the cap, a TTL outside the window, bad PoW, a forged TOKEN header, or acceptances straddling a window edge; distinct = plan hash";
+    s.rule = "plan = network knobs + either 3..12 mixed requests (size x TTL x PoW kind x forged TOKEN x source x withheld body x filename) or a flood of 8..30 small valid STOREs/FETCHes from one address with waits of 0.1..31 s, in a quarter of the floods with a crowd of 20..300 other addresses (one accepted request each) in the middle; non-trivial = a length above the cap, a TTL outside the window, bad PoW, a forged TOKEN header, acceptances straddling a window edge, or 128+ crowd addresses accepted; distinct = plan hash";
     s.gen = gen_c28; s.exec = exec_c28; s.kernel_knobs = w4_knobs;
     s.quick_runs = 2500; s.thorough_runs = 100000; s.quick_secs = 55; s.thorough_secs = 900;
     return s;
